@@ -37,7 +37,7 @@ import (
 func init() {
 	Register(&Spec{
 		ID: "C09", Level: "exploration",
-		Rule: "cases = chains driven by the token director (issue / re-issue of taken symbols and min units by others / mint / edit / burn / transfer-owner by owners, previous owners and strangers, one scripted attack with a crafted 23-byte owner address that splices the (owner, symbol) index key; scales 0..18; initial and max supplies from {0,1,small,1e6,1e11 | default,=initial,huge,2^64-1}; fractional burns in min units; max-supply edits to floor/ceil/below/equal of what circulates; tax and mint-fee ratios from {0,1e-18,0.4,0.5,1-1e-18,1,random}; base fee in the native token or in a user token with scale>0; symbol lengths 3..64); a case is non-trivial when the tx succeeded (or was a targeted hostile rejection) and the registry/ledger relations were evaluated on it; distinct = distinct (op kind, actor role, variant, scale class, magnitude class, tax/ratio class, outcome); since rounds 11-14: every fourth chain born with 130 more tokens and the TotalBurn query compared after every block, new owners in upper-case bech32, restart from the chain's own export, the last two cases borrow the ERC20 director for the relation 'no burn message, no tally change'",
+		Rule: "cases = chains driven by the token director (issue / re-issue of taken symbols and min units by others / mint / edit / burn / transfer-owner by owners, previous owners and strangers, one scripted attack with a crafted 23-byte owner address that splices the (owner, symbol) index key; scales 0..18; initial and max supplies from {0,1,small,1e6,1e11 | default,=initial,huge,2^64-1}; fractional burns in min units; max-supply edits to floor/ceil/below/equal of what circulates; tax and mint-fee ratios from {0,1e-18,0.4,0.5,1-1e-18,1,random}; base fee in the native token or in a user token with scale>0; symbol lengths 3..64); a case is non-trivial when the tx succeeded (or was a targeted hostile rejection) and the registry/ledger relations were evaluated on it; distinct = distinct (op kind, actor role, variant, scale class, magnitude class, tax/ratio class, outcome); since rounds 11-14: every fourth chain born with 130 more tokens and the TotalBurn query compared after every block, new owners in upper-case bech32, restart from the chain's own export, the last two cases borrow the ERC20 director for the relation 'no burn message, no tally change'; since rounds 15-19: edits spell the mintable field in every way the standard parser reads (the reference parses the field itself)",
 		Assume: []string{
 			"circulating amount of a token = bank total supply of its min unit",
 			"the cap clause is judged for tokens issued through the module during the run (the native token's genesis balances are harness configuration)",
@@ -49,7 +49,7 @@ func init() {
 	})
 	Register(&Spec{
 		ID: "C10", Level: "exploration",
-		Rule: "three kinds of cases: (P) types.LossLessSwap called as a pure function on amounts up to 2^128, all 19x19 scale pairs and ratios {1, <1, >1, 1e-18, large, random 18-decimal} against exact rational arithmetic; (E) chains with a store-backed harness EVM: MsgDeployERC20 (authority and not), MsgSwapToERC20 / MsgSwapFromERC20 in both directions with receivers {self, other, fresh, blocked module accounts, unsupported key}, amounts {1, part, all, balance+1, huge}, ERC20 switched off/on, injected EVM faults (error, revert, no/short/excess effect by one unit or by a whole 64-bit word - then with amounts that are whole 64-bit words -, wrong holder, lying balanceOf) and the EVM->native hook with synthetic receipts; (F) chains where Keeper.WithSwapRegistry(...).SwapFeeToken runs inside injected txs over 19 tokens of scale 0..18; non-trivial = the conversion succeeded and its complete bank+EVM balance sheet was compared, or it failed and the next observation point was compared with the previous one; distinct = distinct (kind, direction, receiver kind, amount class, scale pair, ratio class, fault kind, outcome); since rounds 13-14: an ownerless genesis-born token bound to a contract, EVM transactions whose target is another contract or none",
+		Rule: "three kinds of cases: (P) types.LossLessSwap called as a pure function on amounts up to 2^128, all 19x19 scale pairs and ratios {1, <1, >1, 1e-18, large, random 18-decimal} against exact rational arithmetic; (E) chains with a store-backed harness EVM: MsgDeployERC20 (authority and not), MsgSwapToERC20 / MsgSwapFromERC20 in both directions with receivers {self, other, fresh, blocked module accounts, unsupported key}, amounts {1, part, all, balance+1, huge}, ERC20 switched off/on, injected EVM faults (error, revert, no/short/excess effect by one unit or by a whole 64-bit word - then with amounts that are whole 64-bit words -, wrong holder, lying balanceOf) and the EVM->native hook with synthetic receipts; (F) chains where Keeper.WithSwapRegistry(...).SwapFeeToken runs inside injected txs over 19 tokens of scale 0..18; non-trivial = the conversion succeeded and its complete bank+EVM balance sheet was compared, or it failed and the next observation point was compared with the previous one; distinct = distinct (kind, direction, receiver kind, amount class, scale pair, ratio class, fault kind, outcome); since rounds 13-14: an ownerless genesis-born token bound to a contract, EVM transactions whose target is another contract or none; since rounds 15-19: owners edit and hand over bound tokens (only a deployment changes a contract binding); a hook receipt whose first event carries nothing; first deployments under another ticker than the token's symbol",
 		Assume: []string{
 			"the harness EVM stands for a real EVM module: state in the multistore (reverted with the tx), creator nonce bumped on contract creation, owner-only mint/burn, burn above balance reverts",
 			"on-chain amounts are bounded by what a token can hold (max supply 2^64-1 main units, <= ~2^124 min units at scale 18); 2^128 is reached by the pure-function probe",
